@@ -29,10 +29,17 @@ def WF : RPc → Prop
 theorem step_decreases (a : Ann) (log : Log) (r : Reader) (pc pm : Nat) (h : r.pc ≠ .idle) (hwf : WF r.pc) :
     let out := rStep a log r pc pm
     WF out.1.pc ∧ ((out.2.1.isSome ∧ out.1.pc = .idle) ∨ (out.2.1 = none ∧ mu out.1.pc < mu r.pc)) := by
-  sorry
+  intro out
+  have hmu : ∀ p, mu p = rmu p := by intro p; cases p <;> rfl
+  have hWF : ∀ p, WF p = RWF p := by intro p; cases p <;> rfl
+  rw [hWF] at hwf
+  rw [hWF, hmu, hmu]
+  rcases rStep_decreases a log r pc pm h hwf with ⟨hw, h1 | ⟨h2, _, h3⟩⟩
+  · exact ⟨hw, Or.inl h1⟩
+  · exact ⟨hw, Or.inr ⟨h2, h3⟩⟩
 
 theorem call_wf (r : Reader) : WF r.call.pc ∧ mu r.call.pc = stepBound := by
-  sorry
+  exact ⟨trivial, rfl⟩
 
 /-- a `snapshot()` call returns after at most `stepBound` shared accesses, against any sequence of
     logs (the writer may do anything between the reader's accesses) and any picks -/
@@ -42,19 +49,28 @@ theorem bounded (a : Ann) (logs : Nat → Log) (picks : Nat → Nat × Nat) (r :
           if st.2.isSome then st else
           let out := rStep a (logs k) st.1 (picks k).1 (picks k).2
           (out.1, out.2.1)) (r.call, none)).2.isSome := by
-  sorry
+  exact ⟨stepBound, Nat.le_refl _, by decide, call_bounded a logs picks r⟩
 
 /-- if an update is in flight (odd generation), or the segment is being re-initialised
     (generation or version 0), the call answers from its previous snapshot after at most two loads -/
 theorem in_flight_answers_from_cache (a : Ann) (log : Log) (r : Reader) (pm : Nat) (hpc : r.pc = .gen1)
     (h : (load log r.view .gen a.rGen1 pm).1 % 2 = 1 ∨ (load log r.view .gen a.rGen1 pm).1 = 0) :
     (rStep a log r 0 pm).2.1 = some (.ok r.cache) := by
-  sorry
+  unfold rStep
+  rw [hpc]
+  dsimp only
+  rw [if_pos]
+  rcases h with h | h
+  · exact Or.inr (Or.inr h)
+  · exact Or.inl h
 
 theorem version_zero_answers_from_cache (a : Ann) (log : Log) (r : Reader) (pm : Nat) (hpc : r.pc = .version)
     (h : (load log r.view .version a.rVersion pm).1 = 0) :
     (rStep a log r 0 pm).2.1 = some (.ok r.cache) := by
-  sorry
+  unfold rStep
+  rw [hpc]
+  dsimp only
+  rw [if_pos h]
 
 /-- the budget is what the code says: one million attempts -/
 example : RETRIES = 1000000 ∧ stepBound = 9000002 := by decide
